@@ -268,6 +268,112 @@ func selectHasDefault(list []ast.Stmt) bool {
 	return false
 }
 
+// loop variables of a `for` / `range` statement that a function literal started with `go` inside the loop refers to
+// (the module says go 1.13: one variable for all the rounds of the loop)
+func capturedLoopVars(rel string, f *ast.File) []string {
+	var found []string
+	for _, d := range f.Decls {
+		fd, ok := d.(*ast.FuncDecl)
+		if !ok || fd.Body == nil {
+			continue
+		}
+		ast.Inspect(fd.Body, func(n ast.Node) bool {
+			var vars []string
+			var body *ast.BlockStmt
+			switch v := n.(type) {
+			case *ast.RangeStmt:
+				if v.Tok == token.DEFINE {
+					for _, e := range []ast.Expr{v.Key, v.Value} {
+						if id, ok := e.(*ast.Ident); ok && id.Name != "_" {
+							vars = append(vars, id.Name)
+						}
+					}
+				}
+				body = v.Body
+			case *ast.ForStmt:
+				if as, ok := v.Init.(*ast.AssignStmt); ok && as.Tok == token.DEFINE {
+					for _, e := range as.Lhs {
+						if id, ok := e.(*ast.Ident); ok && id.Name != "_" {
+							vars = append(vars, id.Name)
+						}
+					}
+				}
+				body = v.Body
+			}
+			if body == nil || len(vars) == 0 {
+				return true
+			}
+			// function literals bound to a name inside the loop: `go name()` starts them
+			named := map[string]*ast.FuncLit{}
+			ast.Inspect(body, func(m ast.Node) bool {
+				if as, ok := m.(*ast.AssignStmt); ok && len(as.Lhs) == len(as.Rhs) {
+					for i, e := range as.Lhs {
+						if id, ok := e.(*ast.Ident); ok {
+							if fl, ok := as.Rhs[i].(*ast.FuncLit); ok {
+								named[id.Name] = fl
+							}
+						}
+					}
+				}
+				return true
+			})
+			ast.Inspect(body, func(m ast.Node) bool {
+				g, ok := m.(*ast.GoStmt)
+				if !ok {
+					return true
+				}
+				fl, ok := g.Call.Fun.(*ast.FuncLit)
+				if !ok {
+					if id, isID := g.Call.Fun.(*ast.Ident); isID && named[id.Name] != nil {
+						fl, ok = named[id.Name], true
+					}
+				}
+				if !ok {
+					return true
+				}
+				// parameters of the literal (and what it declares itself) hide the loop's variables
+				hidden := map[string]bool{}
+				if fl.Type.Params != nil {
+					for _, p := range fl.Type.Params.List {
+						for _, nm := range p.Names {
+							hidden[nm.Name] = true
+						}
+					}
+				}
+				ast.Inspect(fl.Body, func(x ast.Node) bool {
+					if as, ok := x.(*ast.AssignStmt); ok && as.Tok == token.DEFINE {
+						for _, e := range as.Lhs {
+							if id, ok := e.(*ast.Ident); ok {
+								hidden[id.Name] = true
+							}
+						}
+					}
+					return true
+				})
+				seen := map[string]bool{}
+				ast.Inspect(fl.Body, func(x ast.Node) bool {
+					if id, ok := x.(*ast.Ident); ok {
+						for _, v := range vars {
+							if id.Name == v && !hidden[v] && !seen[v] {
+								seen[v] = true
+								name := fd.Name.Name
+								if fd.Recv != nil && len(fd.Recv.List) > 0 {
+									name = strings.TrimPrefix(src(fd.Recv.List[0].Type), "*") + "." + name
+								}
+								found = append(found, rel+" "+name+" "+v)
+							}
+						}
+					}
+					return true
+				})
+				return true
+			})
+			return true
+		})
+	}
+	return found
+}
+
 func extractLocks(out string) {
 	l := &leanFile{ns: "Locks"}
 	var files []string
@@ -283,8 +389,10 @@ func extractLocks(out string) {
 	})
 	sort.Strings(files)
 	var entries []string
+	var captured []string
 	for _, rel := range files {
 		f := load(rel)
+		captured = append(captured, capturedLoopVars(rel, f)...)
 		for _, d := range f.Decls {
 			fd, ok := d.(*ast.FuncDecl)
 			if !ok || fd.Body == nil || !touchesLocks(fd.Body, true) {
@@ -314,6 +422,7 @@ func extractLocks(out string) {
 			}
 		}
 	}
+	l.strList("capturedLoopVars", captured)
 	l.raw("def fns : List (String × QiVerif.Locks.Prog) :=\n  [" + strings.Join(entries, ",\n   ") + "]")
 	l.writeWithImports(out, "Locks.lean", []string{"QiVerif.Model.Locks"})
 }
